@@ -46,8 +46,8 @@ class MirFn:
         self.lines = lines
         self.crate = crate
         self._sha = None
-        mm = FN_RE.match(header) or FN_RE_UNIT.match(header)
-        self.name = mm.group(1) if mm else header
+        ph = parse_header(header)
+        self.name = ph[0] if ph else header
 
     def sha(self):
         if self._sha is None:
@@ -61,6 +61,32 @@ class MirFn:
 
 FN_RE = re.compile(r'^fn (.+)\((.*)\) -> (.+) \{$')
 FN_RE_UNIT = re.compile(r'^fn (.+)\((.*)\) \{$')
+
+
+def parse_header(h):
+    """'fn NAME(ARGS) -> RET {' -> (name, args, ret); NAME never contains '(' but ARGS / RET may"""
+    if not h.startswith('fn '):
+        return None
+    i = h.find('(')
+    if i < 0:
+        return None
+    depth = 0
+    j = i
+    while j < len(h):
+        if h[j] == '(':
+            depth += 1
+        elif h[j] == ')':
+            depth -= 1
+            if depth == 0:
+                break
+        j += 1
+    name, args = h[3:i], h[i + 1:j]
+    rest = h[j + 1:].strip()
+    if rest.startswith('->'):
+        ret = rest[2:].rstrip('{').strip()
+    else:
+        ret = '()'
+    return name, args, ret
 
 
 def load_mir(path, crate):
